@@ -493,10 +493,13 @@ def run_validation(ctx, n_apis, per_api, seed_tag="C18-val", cli_every=7, full_f
 
 
 # ---------------------------------------------------------------------------------------------- call time
-def call_api(r):
-    """A library whose unary methods carry auto-populated fields of both kinds, with accepted settings."""
-    main = File("google/example/library/v1/library.proto", PKG, deps=list(apigen.STD_DEPS) + ["google/api/field_info.proto"])
-    book = main.message("Book").field("name", 1, "string").field("title", 2, "string")
+def call_api(r, index=0):
+    """A library whose unary methods carry auto-populated fields of both kinds, with accepted settings.  The request message of
+    a method lives either next to the service or in ANOTHER proto package of the same API (sub-package <pkg>.common): the client
+    templates take a different branch there (method.input.ident.package != method.ident.package)."""
+    common = File("google/example/library/v1/common/requests.proto", PKG + ".common", deps=list(apigen.STD_DEPS) + ["google/api/field_info.proto"])
+    book = common.message("Book").field("name", 1, "string").field("title", 2, "string")
+    main = File("google/example/library/v1/library.proto", PKG, deps=list(apigen.STD_DEPS) + ["google/api/field_info.proto", common.proto.name])
     svc = main.service("Library", host="library.example.com", scopes="https://www.googleapis.com/auth/cloud-platform")
     from google.api import field_info_pb2
     methods, settings = [], []
@@ -508,7 +511,9 @@ def call_api(r):
     ]
     r.shuffle(shapes)
     for rpc, http, body, sig in shapes[: r.randint(3, 4)]:
-        m = main.message(rpc + "Request")
+        # where the request message is declared: the first two methods of a library cover both places
+        where = ["common", "same"][(index + len(methods)) % 2] if len(methods) < 2 else r.choice(["common", "same"])
+        m = (common if where == "common" else main).message(rpc + "Request")
         fields = [("parent", "string", {}), ("book", book.fqn, {})]
         ids = [("request_id", {"uuid4": True}), ("opt_id", {"uuid4": True, "optional": True}), ("other_id", {"uuid4": True}),
                ("opt_other", {"uuid4": True, "optional": True}), ("note", {}), ("opt_note", {"optional": True})]
@@ -535,9 +540,10 @@ def call_api(r):
         methods.append({"rpc": rpc, "snake": snake(rpc), "req_fqn": m.fqn, "http": http, "body": body, "sig": sig,
                         "fields": [{"name": n, "string": True, "required": False, "uuid4": bool(kw.get("uuid4")), "optional": bool(kw.get("optional")),
                                     "repeated": False} for n, kw in ids] + [{"name": "parent", "string": True, "required": False, "uuid4": False, "optional": False, "repeated": False}],
-                        "auto": auto if listed else [], "selector": f"{PKG}.Library.{rpc}", "path": f"/{PKG}.Library/{rpc}"})
+                        "auto": auto if listed else [], "selector": f"{PKG}.Library.{rpc}", "path": f"/{PKG}.Library/{rpc}", "where": where,
+                        "types_mod": "google.example.library_v1.common.types" if where == "common" else "google.example.library_v1.types"})
     r.shuffle(settings)
-    return [main], methods, settings
+    return [common, main], methods, settings
 
 
 def snake(s):
@@ -626,8 +632,9 @@ def eval_call(ctx, D, i, b64, settings, c, res, checks, pending, generated):
     case = {"kind": "call", "request_b64": b64, "settings": settings, "spec": c["spec"], "state": st, "method": m}
     ctx.case({"lib": i, "rpc": m["rpc"], "kind": kind, "mode": c["mode"], "state": st, "auto": m["auto"]},
              feature=[f"call-{kind}", f"mode-{c['mode']}", "auto-listed" if m["auto"] else "method-without-settings",
+                      f"request-message-in-{m.get('where', 'same')}-package-{kind}" if m["auto"] else "request-unlisted",
                       "http-body-" + str(m["body"])])
-    label = f"lib#{i} {m['rpc']} {kind} {c['mode']} auto={m['auto']} state={json.dumps(st)}"
+    label = f"lib#{i} {m['rpc']} (request message in {'sub-package common' if m.get('where') == 'common' else 'the service package'}) {kind} {c['mode']} auto={m['auto']} state={json.dumps(st)}"
     if not res.get("ok"):
         pending.append((None, f"{label}: the call raised {res.get('error')}", case))
         return
@@ -700,7 +707,7 @@ def run_calls(ctx, n_libs, seed_tag="C18-lib"):
     jobs = []
     for i in range(n_libs):
         r = env.rng(seed_tag, i)
-        files, methods, settings = call_api(r)
+        files, methods, settings = call_api(r, i)
         cd = gen.case_dir(f"c18lib{seed_tag}{i}")
         req = gen.with_params(apigen.request(files), ["transport=grpc+rest"], cd, service_yaml=service_yaml(settings))
         jobs.append((i, req, methods, settings, files))
@@ -722,7 +729,7 @@ def run_calls(ctx, n_libs, seed_tag="C18-lib"):
                 ctx.oblige(f"lib#{i}: T1 extraction of the population blocks from {fname}", False, repr(e), "T1")
                 continue
             for m in methods:
-                checks.append((f"lib#{i} {cls}.{m['snake']} blocks {blocks[m['snake']]} settings={json.dumps(settings)[:200]}",
+                checks.append((f"lib#{i} {cls}.{m['snake']} (request message in {m['where']} package) emitted population {blocks[m['snake']]} settings={json.dumps(settings)[:200]}",
                                f"lines_opt_eqb (option_map blocks_lines BS{'a' if is_async else 's'}_L{i}_{m['rpc']}) {coq.slist(blocks[m['snake']])}"))
         root = gen.materialize(res, gen.case_dir(f"c18root{seed_tag}{i}"))
         D = dyn.Dyn(req)
@@ -740,7 +747,7 @@ def run_calls(ctx, n_libs, seed_tag="C18-lib"):
                     if all(v is None for v in st.values()):
                         modes.append("kwargs" if m["sig"] else "message")
                     mode = r.choice(modes)
-                    rq = {"mode": mode, "cls": f"google.example.library_v1.types:{m['rpc']}Request", "b64": dyn.Dyn.b64(msg)}
+                    rq = {"mode": mode, "cls": f"{m['types_mod']}:{m['rpc']}Request", "b64": dyn.Dyn.b64(msg)}
                     if mode == "kwargs":
                         rq["kwargs"] = list(m["sig"])
                     calls.append({"spec": {"service_module": "library", "client": client, "transport": kind, "method": m["snake"], "request": rq,
@@ -766,6 +773,10 @@ def run_calls(ctx, n_libs, seed_tag="C18-lib"):
                f"({len(checks)} comparisons over {len(jobs)} generated libraries, {nfiles} cases files)",
                not failing and not errors and len(checks) > 0, "; ".join((failing + errors)[:5]), "T2")
     ctx.notes.setdefault("call_disagreements", []).extend(failing[:10])
+    nolayout = [f"{w}/{k}" for w in ("common", "same") for k in ("grpc", "grpc_asyncio", "rest")
+                if not ctx.features.get(f"request-message-in-{w}-package-{k}")]
+    ctx.oblige("inputs: auto-populated methods whose request message lives in the service package AND in another package of the API were called "
+               "through the sync, asyncio and REST paths", not nolayout or not drives, f"missing: {nolayout}", "T2")
     missing = [k for k in ("grpc", "grpc_asyncio", "rest") if not ctx.features.get(f"optional-set-empty-listed-{k}")]
     ctx.oblige("inputs: a listed proto3-optional field explicitly set to the empty string was sent through the sync, asyncio and REST paths",
                not missing or not drives, f"paths without such a call: {missing}", "T2")
@@ -831,6 +842,8 @@ LAYOUTS = {            # service -> proto sub-package (relative to the generated
     "mixed-rev": {"Library": "services", "Admin": ""},
     "allsub": {"Library": "services", "Admin": "admin"},
     "allsub-one": {"Library": "services", "Admin": "services"},
+    "top-foreign-req": {"Library": "", "Admin": ""},          # request messages declared in sub-package <pkg>.common
+    "allsub-foreign-req": {"Library": "services", "Admin": "admin"},
 }
 LAYOUT_FIELDS = [("parent", "string", {}, None), ("request_id", "string", {}, "UUID4"), ("opt_id", "string", {"optional": True}, "UUID4"),
                  ("name", "string", {"required": True}, None), ("count", "int32", {}, "UUID4"), ("note", "string", {}, None),
@@ -845,17 +858,21 @@ def layout_api(layout):
     res = File(f"{d}/resources/resources.proto", PKG + ".resources", deps=list(apigen.STD_DEPS))
     book = res.message("Book").field("title", 1, "string")
     files, desc, byfile = [res], {"methods": {}, "layout": layout}, {}
+    reqfile = None
+    if layout.endswith("foreign-req"):
+        reqfile = File(f"{d}/common/requests.proto", PKG + ".common", deps=list(apigen.STD_DEPS) + ["google/api/field_info.proto"])
+        files.append(reqfile)
     rpcs = {"Library": [("CreateBook", False, False), ("UpdateBook", False, False), ("WatchBooks", False, True), ("UploadBooks", True, False)],
             "Admin": [("CreateThing", False, False), ("GetThing", False, False)]}
     for svc_name, sub in LAYOUTS[layout].items():
         pkg = PKG + ("." + sub if sub else "")
         key = (sub, svc_name if LAYOUTS[layout]["Library"] != LAYOUTS[layout]["Admin"] or not sub else "both")
         fname = f"{d}/{sub + '/' if sub else ''}{svc_name.lower()}.proto"
-        f = File(fname, pkg, deps=list(apigen.STD_DEPS) + ["google/api/field_info.proto", res.proto.name])
-        inner = f.message(svc_name + "Inner").field("request_id", 1, "string", uuid4=True)
+        f = File(fname, pkg, deps=list(apigen.STD_DEPS) + ["google/api/field_info.proto", res.proto.name] + ([reqfile.proto.name] if reqfile else []))
+        inner = (reqfile or f).message(svc_name + "Inner").field("request_id", 1, "string", uuid4=True)
         svc = f.service(svc_name, host="library.example.com")
         for rpc, cs, ss in rpcs[svc_name]:
-            m = f.message(rpc + "Request")
+            m = (reqfile or f).message(rpc + "Request")
             for i, (n, t, kw, fmt) in enumerate(LAYOUT_FIELDS, 1):
                 m.field(n, i, t, **kw)
                 if fmt:
@@ -906,12 +923,14 @@ def coq_layout(desc):
 
 def run_layouts(ctx, seed_tag="C18-layout", full_layouts=2, only=None):
     """Generation outcome through the real generator path (API.build + Generator.get_response: validation is lazy and runs on the
-    view of the sub-package that owns each service), crossed with how the services are spread over proto sub-packages."""
+    view of the sub-package that owns each service), crossed with how the services are spread over proto sub-packages.
+    The former gap (a sub-package view rejected valid settings naming a method outside it; fixed by /repo efe4cb8) is watched by the
+    valid-* settings of the mixed / all-sub layouts and reported with its old signature if it comes back."""
     cases = []
     for li, layout in enumerate(LAYOUTS):
         r = env.rng(seed_tag, li)
         files, desc = layout_api(layout)
-        todo = layout_settings(r, desc, full=ctx.tier != "quick" or layout in ("allsub", "mixed", "allsub-one"))
+        todo = layout_settings(r, desc, full=ctx.tier != "quick" or layout in ("allsub", "mixed", "allsub-one", "top-foreign-req"))
         d = os.path.join(env.VERIF, "corpus", "C18")
         for n in sorted(os.listdir(d)) if os.path.isdir(d) else []:
             c = json.load(open(os.path.join(d, n))) if n.endswith(".json") else {}
